@@ -13,7 +13,7 @@ from ..core import rule, AnalysisError
 from ..engine import rx
 from ..engine.facts import dotted, const, src, walk_func, str_value
 from ..engine import pattern as P
-from .common import calls, pn, return_leaves, guards_of, arms, access_paths
+from .common import calls, pn, return_leaves, guards_of, arms, access_paths, resolve, resolve_deep
 
 MARKUP = set("&<>\"'")
 
@@ -134,9 +134,21 @@ def entity_escaper(ctx):
     un = [f for n, f in db.methods("filters.XMLEntityEscaper").items() if n.endswith("__unescape")]
     ctx.require(un, "__unescape not found")
     u0 = un[0]
-    ok = P.has(u0, "($d, $h, $n) = %s.groups()\nif $d:\n    $c = int($d)\nelif $h:\n    $c = int($h, 16)\nelse:\n    $c = self.name2codepoint.get($n, $dflt)\n..." % pn(u0, 1))
-    rets = [r_ for r_ in walk_func(u0) if isinstance(r_, ast.Return)]
-    ok = ok and bool(rets) and all(P.has(r_, "chr($c)") for r_ in rets)
+    # every value returned is chr(<code point>), the code point chosen from the three groups of the match in their order
+    grp = [s_ for s_ in walk_func(u0) if isinstance(s_, ast.Assign) and isinstance(s_.targets[0], ast.Tuple) and P.matches(s_.value, "%s.groups()" % pn(u0, 1))]
+    names3 = [src(t_) for t_ in grp[0].targets[0].elts] if grp else []
+    leaves = return_leaves(u0)
+    ok = len(names3) == 3 and bool(leaves)
+    for v_, g_ in leaves:
+        env = {}
+        if not (isinstance(v_, ast.Call) and dotted(v_.func) == "chr" and len(v_.args) == 1):
+            ok = False
+            continue
+        cp = resolve_deep(u0, v_.args[0])
+        if not P.matches(cp, "int($d) if $d else int($h, 16) if $h else %s.name2codepoint.get($n, $dflt)" % pn(u0, 0), env):
+            ok = False
+            continue
+        ok = ok and [src(env[k][1]) for k in ("d", "h", "n")] == names3
     ctx.check(ok, "unescape.decode", db.where(un[0]), "__unescape does not decode decimal/hex/named references to chr(codepoint)", "int(d) / int(h,16) / name2codepoint -> chr")
     ee = db.func("filters.XMLEntityEscaper.escape_entities")
     ctx.check("translate(self.codepoint2entity)" in src(ee), "entity.translate", db.where(ee), "escape_entities does not translate through codepoint2entity", "str(text).translate(codepoint2entity)")
@@ -278,7 +290,16 @@ def small(ctx):
     rets = [r for r in walk_func(ue) if isinstance(r, ast.Return)]
     all_quoted = bool(rets) and all(isinstance(r.value, ast.Call) and dotted(r.value.func) in ("quote_plus", "urllib.parse.quote_plus") for r in rets)
     ctx.check(all_quoted, "url_escape.every-return-quoted", db.where(ue), "url_escape has a return that bypasses quote_plus (%s): for some input the output contains characters that are not URL-safe" % [src(r.value) for r in rets if not (isinstance(r.value, ast.Call) and dotted(r.value.func) in ("quote_plus", "urllib.parse.quote_plus"))], "every return is quote_plus(...)")
-    ok = bool(enc) and const(enc[0].args[0]) in ("utf8", "utf-8", "UTF-8") and "quote_plus(string)" in t
+    ok = bool(enc) and const(enc[0].args[0]) in ("utf8", "utf-8", "UTF-8") and bool(rets)
+    for r_ in rets:
+        a_ = r_.value.args[0] if isinstance(r_.value, ast.Call) and r_.value.args else None
+        fed = False
+        if isinstance(a_, ast.Name):
+            ds = [s_ for s_ in walk_func(ue) if isinstance(s_, ast.Assign) and isinstance(s_.targets[0], ast.Name) and s_.targets[0].id == a_.id]
+            fed = len(ds) == 1 and ds[0].value is enc[0] and src(enc[0].func.value) == pn(ue, 0)
+        elif a_ is not None and enc:
+            fed = a_ is enc[0] and src(enc[0].func.value) == pn(ue, 0)
+        ok = ok and fed
     ctx.check(ok, "url_escape", db.where(ue), "url_escape does not UTF-8 encode and quote_plus", "encode('utf8') then quote_plus")
     imp = db.mod("filters").imports.get("quote_plus")
     ctx.check(imp == "urllib.parse.quote_plus", "quote_plus", "mako/filters.py", "quote_plus is %s" % imp, "urllib.parse.quote_plus")
